@@ -2198,8 +2198,8 @@ def _run(ctx):
                 if same:
                     agree.append(variant)
             if obs["raised"] == "err:index":
-                # an exception that leaves the block: the handler of the exception guard (Model/EngineFault.lean, proposed
-                # repair) polls once more before re-raising — the code must side with ONE guard over all cases (c12_fault.GUARD)
+                # an exception that leaves the block: the handler of the exception guard (Model/EngineFault.lean, the code
+                # as it is since the repair) polls once more before re-raising — the code must side with ONE guard over all cases (c12_fault.GUARD)
                 if agree:
                     c12_fault.GUARD[eng] &= {"asis"}
                 else:
